@@ -345,13 +345,17 @@ func extractTimeout(headers http.Header, protocol conformancev1.Protocol, feedba
 			break
 		}
 		headers.Del(connectTimeoutHeader)
-		intVal, err := strconv.ParseInt(val, 10, 64)
-		if err != nil || intVal < 0 {
+		if !isASCIIDigits(val) { // no sign, no other characters
 			feedback.Printf("invalid numeric value for %q header: %q", connectTimeoutHeader, val)
 			break
 		}
-		if intVal > 9999999999 { // 10 digit max
+		if len(val) > 10 { // 10 digit max
 			feedback.Printf("invalid numeric value (>10 digits) in %q header: %q", connectTimeoutHeader, val)
+			break
+		}
+		intVal, err := strconv.ParseInt(val, 10, 64)
+		if err != nil || intVal < 0 {
+			feedback.Printf("invalid numeric value for %q header: %q", connectTimeoutHeader, val)
 			break
 		}
 		timeout := time.Duration(intVal) * time.Millisecond
@@ -375,13 +379,17 @@ func extractTimeout(headers http.Header, protocol conformancev1.Protocol, feedba
 			feedback.Printf("invalid unit in %q header: %q", grpcTimeoutHeader, val)
 			break
 		}
-		intVal, err := strconv.ParseInt(timeoutStr, 10, 64)
-		if err != nil || intVal < 0 {
+		if !isASCIIDigits(timeoutStr) { // no sign, no other characters
 			feedback.Printf("invalid numeric value in %q header: %q", grpcTimeoutHeader, val)
 			break
 		}
-		if intVal > 99999999 { // 8 digit max
+		if len(timeoutStr) > 8 { // 8 digit max
 			feedback.Printf("invalid numeric value (>8 digits) in %q header: %q", grpcTimeoutHeader, val)
+			break
+		}
+		intVal, err := strconv.ParseInt(timeoutStr, 10, 64)
+		if err != nil || intVal < 0 {
+			feedback.Printf("invalid numeric value in %q header: %q", grpcTimeoutHeader, val)
 			break
 		}
 		var timeout time.Duration
@@ -413,6 +421,21 @@ func extractTimeout(headers http.Header, protocol conformancev1.Protocol, feedba
 		return timeout, true
 	}
 	return 0, false
+}
+
+// isASCIIDigits reports whether s is a non-empty string of ASCII digits, which is
+// all that the timeout grammars of the Connect and gRPC protocols allow (strconv.ParseInt
+// would also accept a leading sign).
+func isASCIIDigits(s string) bool {
+	if s == "" {
+		return false
+	}
+	for i := 0; i < len(s); i++ {
+		if s[i] < '0' || s[i] > '9' {
+			return false
+		}
+	}
+	return true
 }
 
 func contextWithTimeout(ctx context.Context, timeout time.Duration) context.Context {
